@@ -276,6 +276,9 @@ def build_crafted(S, T, root):
     add("repeated_tag_after_group", refs.build(F + [(11, "Y")]))
     add("repeated_tag_after_group", refs.build(F + [(448, "p9")]))
     add("repeated_tag", refs.build(F[:6] + [(11, "again")] + F[6:]))
+    # framing / header tags a second time inside a correctly framed message: the session layer chokes on them
+    for t_, v_ in ((8, "X"), (8, "FIX.4.4"), (35, "D"), (49, T), (34, 3), (52, "20240101-00:00:00.000")):
+        add("repeated_tag", refs.build(F[:6] + [(t_, v_)] + F[6:]))
     for v in (b"FIX.4.2", b"FIX.5.0", b"FIXT.1.1", b"FIX.", b"FIX.4.4x", b"FIX.4.", b"", b"fix.4.4"):
         add("wrong_beginstring", refs.build(F, begin=v))
     add("nul_inserted", good.replace(b"MSFT", b"MS\x00FT"))
